@@ -11,6 +11,7 @@ sys.path.insert(0, os.path.dirname(os.path.dirname(os.path.abspath(__file__))))
 import common as C
 from run import diff_stream
 
+UNIT = "ints"
 GEN = ["ladders"]
 RULE = ("u64: every 2^k-1,2^k,2^k+1 (k=0..64), every ladder threshold +-1, seeded random values of every bit length; "
         "sanitize: all atoms of length <=1, all 2-byte atoms with first byte in {00,01,7f,80,ff}, atoms up to 10 bytes with "
@@ -180,8 +181,8 @@ def run(ctx):
         groups = [(line.split(" ")[0], [(line, None)])]
     for name, cases in groups:
         lines = [c[0] for c in cases]
-        impl = C.run_lines(C.VH, lines)
-        model = C.run_lines(C.VRUN, lines) if ctx["have_model"] else ["MODEL-UNAVAILABLE"] * len(lines)
+        impl = C.run_lines(C.VH(UNIT), lines)
+        model = C.run_lines(C.VRUN(UNIT), lines) if ctx["have_model"] else ["MODEL-UNAVAILABLE"] * len(lines)
 
         def key(c, i, name=name):
             toks = c.split(" ")
@@ -216,7 +217,7 @@ def run(ctx):
         # exhaustive below 2^32 on the implementation (independent minimal encoding inside the harness)
         step = (1 << 32) // 16
         lines = ["ints.sweep %d %d" % (i * step, (i + 1) * step) for i in range(16)]
-        outs = C.run_lines(C.VH, lines, shards=16, timeout=3000)
+        outs = C.run_lines(C.VH(UNIT), lines, shards=16, timeout=3000)
         for l, o in zip(lines, outs):
             if o != "OK":
                 rep.add_failure("ints.sweep", l, o, "OK", "exhaustive sweep below 2^32 found an amount whose encodings disagree")
